@@ -7,6 +7,10 @@ CLAIMED = {
    text="Seeded deterministic simulation of the real cp.CommandProcessor with its real dispatchers (1-8), all three placement algorithms (greedy/partition through the verif hook cp.VerifBuild) and the real shared CU resource pool, against stub compute units that declare finite drawn resources and complete work-groups in drawn order after drawn delays, and a scripted driver issuing overlapping launches; online oracle over the CU-facing and driver-facing port histories: every work-group coordinate mapped exactly once, placement inside capacity and disjoint from resident work-groups by an independent interval model, one LaunchKernelRsp per request after the last completion with the right id, resources returned (a final whole-CU probe kernel must be placeable), liveness. Exploration, not proof.",
    note="Trusted: akita ports as executed, the harness's stub CUs, interval model and oracle; stub CUs batch completions of one kernel only (cross-kernel batching is an emulation-CU behaviour examined on the whole platform); generated work-groups fit an empty CU by a conservative model.",
    ref="6 (C09)"),
+ "C10": dict(
+   text="Seeded histories of the public Driver memory API (Init, InitWithExistingPID, SelectGPU, CreateUnifiedGPU, AllocateMemory, AllocateUnifiedMemory, FreeMemory, Remap, Distribute) from several contexts/processes on small device memories, default allocator at page sizes 2^12-2^16 and buddy allocator (verif hook) at 4 KiB, with capacity exhaustion as the injected fault; after every call the real vm.PageTable is compared with a reference model (live pages mapped, page-aligned, inside the recorded device, pairwise disjoint, unrelated mappings unchanged, freed pages unmapped, in-capacity calls never crash, over-capacity calls fail with 'out of memory'). The schedule dimension is the interleaving of the contexts' calls (the allocator serialises on a mutex). Three genuine defects found and repaired (fix: commits), one recorded (buddy allocator aliasing). Exploration, not proof.",
+   note="Trusted: akita vm.PageTable, the reference model; only valid calls are generated; buddy-allocator out-of-memory is treated as legal fragmentation; migration preparation is covered with C19's driver harness.",
+   ref="6 (C10), 12"),
  "C15": dict(
    text="Seeded deterministic simulation of the real rob.ReorderBuffer between a scripted requester, an adversarial memory stub and a control agent over fault-injecting connections; online oracle over the complete port history (order, exactly-once, payload, forwarding, occupancy, flush semantics, liveness at quiescence). Exploration: a clean batch is evidence over the sampled (configuration, schedule, fault sequence) space, not proof.",
    note="Trusted: akita sim.Port/Buffer semantics, the harness's own stubs and oracle; links reliable and FIFO per pair (DESIGN 4.2); request classification around flush/restart as defined in DESIGN C15.",
@@ -46,7 +50,6 @@ PENDING = {
  "C02": "check not built yet (planned: emu-vs-timing differential simulation, DESIGN 6 C02)",
  "C05": "check not built yet (planned: host-schedule exploration under the goroutine controller, DESIGN 6 C05)",
  "C08": "check not built yet (planned: probe kernels on whole platforms, DESIGN 6 C08)",
- "C10": "check not built yet (planned: seeded driver-API histories against a reference allocator, DESIGN 6 C10)",
  "C11": "check not built yet (planned: copy sequences against a shadow byte array, DESIGN 6 C11)",
  "C12": "check not built yet (planned: driver threads under the controlled goroutine scheduler, DESIGN 6 C12)",
  "C14": "check not built yet (planned: CU in a box, DESIGN 6 C14)",
